@@ -1159,7 +1159,9 @@ func checkCase(c Case) (msg string, stmts int, herr error) {
 		for _, e := range evs {
 			// BEGIN is a statement too: database/sql refuses BeginTx/Exec/Query on a context that is
 			// already done before calling the driver, so any such event means another context was passed
-			if e.Kind == recdrv.Exec || e.Kind == recdrv.Query || e.Kind == recdrv.Begin {
+			// ... and a PREPARE as well (database/sql checks the context before it hands the
+			// text to the driver), so a preparation that still happens used another context
+			if e.Kind == recdrv.Exec || e.Kind == recdrv.Query || e.Kind == recdrv.Begin || e.Kind == recdrv.Prepare {
 				return fmt.Sprintf("with an already-cancelled context the driver call %s still happened (ctx marker %s, returned error: %v)\n  driver events:\n%s",
 					e.String(), markerOf(e.Ctx), err, renderEvents(evs))
 			}
@@ -1225,7 +1227,7 @@ const rule = "C18: a program = handle bound by WithContext / Session{Context} (a
 	"and 1-2 operations out of create / create-slice / CreateInBatches / Updates / Model.Update / Save (update, fallback, new, slice) with association graphs (belongs-to, has-one, has-many, nested, many2many, polymorphic; FullSaveAssociations), " +
 	"Delete with Select(associations), Find/First/Take/Last with Preload (single, nested, clause.Associations, conditions) and relation Joins, Association(name).Find/Count/Append/Replace/Delete/Clear, " +
 	"FindInBatches (with statements in the callback), Rows+ScanRows, Row, Scan, Pluck, Count, FirstOrCreate/FirstOrInit, Raw, Exec over a seeded family; " +
-	"judged: every begin/prepare/exec/query driver event of the program carries the case's marker, and under an already-cancelled context no begin/exec/query event occurs and the error wraps context.Canceled (no panic); " +
+	"judged: every begin/prepare/exec/query driver event of the program carries the case's marker, and under an already-cancelled context no begin/prepare/exec/query event occurs and the error wraps context.Canceled (no panic); " +
 	"non-trivial = the operations issued at least 2 exec/query statements (save-point statements not counted) under the live context; distinct = the full program description"
 
 func TestC18(t *testing.T) {
